@@ -68,6 +68,7 @@ pub fn generate(rng: &mut Rng, tier: Tier, stats: &mut GenStats) -> Scenario {
             erased: false,
             form: g.rng.below(8) as u8,
         });
+        maybe_above(&mut g, walkers.last_mut().unwrap(), 8);
     }
     let schedule = interleaving(g.rng, nw, tree.len());
     Scenario {
